@@ -10,6 +10,11 @@ from ..encode import exact_int, EncodeError
 
 TFMIN = {'1m': 1, '3m': 3, '5m': 5, '15m': 15, '30m': 30, '45m': 45, '1h': 60, '2h': 120, '3h': 180, '4h': 240,
          '6h': 360, '8h': 480, '12h': 720, '1D': 1440}
+class RunawayRun(RuntimeError):
+    """the observed run produced an absurd number of observations / ran too long (seen with broken candle code that
+    makes the simulator loop): the run is aborted, what was recorded up to then is still judged"""
+
+
 HOOKS = {'on_open_position', 'on_close_position', 'on_increased_position', 'on_reduced_position'}
 
 
@@ -172,7 +177,13 @@ def run_case(case):
                 st['formingreads'] += 1
             st['ev'].append(e)
 
+    max_ev = 4000 + 60 * (W + N)
+    deadline = [None]
+
     def observe(strategy, name, order):
+        import time
+        if len(st['ev']) > max_ev or (deadline[0] is not None and time.time() > deadline[0]):
+            raise RunawayRun('%d events' % len(st['ev']))
         try:
             _observe(strategy, name, order)
         except EncodeError as ex_:            # never let the observer change the run; the check reports it as machinery
@@ -202,6 +213,8 @@ def run_case(case):
             st['lastpart'][symbol] = None
         return r
     bm._update_all_routes_a_partial_candle = upd
+    import time as _time
+    deadline[0] = _time.time() + case.get('time_limit', 240)
     try:
         cls = make_pattern_strategy(observe) if case.get('pattern') is not None else None
         routes = [{'symbol': s, 'timeframe': tf} for (s, tf) in case['trading']]
